@@ -494,8 +494,17 @@ func (f *Frame) binop(x *ssa.BinOp, st *State, reach string) {
 func (f *Frame) overflow(x ssa.Value, term, reach string) {
 	g := f.g
 	sweep := os.Getenv("VERIF_OVERFLOW_SWEEP") == "1" // exploration aid (not used by any registered command): A-ARITH switched off everywhere
-	if g.contract == nil || (!g.contract.Overflow && !sweep) {
+	// machine-range obligations are the default for every function under contract; `arith mathematical: <why>` opts a
+	// function out (recorded as an A-ARITH assumption in the evidence), `overflow only a b` restricts them to named results
+	if g.contract == nil || (g.contract.MathArith && !sweep) {
 		return
+	}
+	if b, ok := x.(*ssa.BinOp); ok && b.Op == token.ADD {
+		// the hidden index of a range loop over a slice or string (k = phi[-1, k+1]; k+1 < len): not arithmetic of the
+		// program, and within the length by construction
+		if ph, ok := b.X.(*ssa.Phi); ok && ph.Comment == "rangeindex" {
+			return
+		}
 	}
 	if only := g.contract.OverflowOnly; len(only) > 0 && !sweep {
 		// restricted to the results assigned to the named locals or struct fields
